@@ -155,7 +155,7 @@ class RangeNode(OperandNode):
                 row_cells = []
                 for col_addr in range_row:
                     cell = context.eval_cell(col_addr)
-                    if cell.value == '' or cell.value is None:
+                    if func_xltypes.Blank.is_blank(cell):
                         empty_col += 1
                         if empty_col > MAX_EMPTY:
                             break
